@@ -30,6 +30,13 @@ class Stage:
         t = time.time()
         subprocess.run(["rsync", "-a", "--exclude", ".git", REPO + "/", self.repo + "/"], check=True)
         self.timings["rsync_s"] = round(time.time() - t, 2)
+        patch = os.environ.get("VERIF_PATCH")
+        if patch:   # development aid: try a candidate fix or a seeded change without touching /repo
+            for p in patch.split(":"):
+                r = subprocess.run(["patch", "-p1", "-s", "-i", os.path.abspath(p)], cwd=self.repo, capture_output=True, text=True)
+                if r.returncode != 0:
+                    raise BuildError("VERIF_PATCH %s does not apply: %s" % (p, r.stdout + r.stderr))
+            log("stage: applied VERIF_PATCH " + patch)
         self.make()
         return self
 
